@@ -5,6 +5,8 @@
 import Lean.Data.Json
 import BVM.Model.Bits
 import BVM.Model.Rt
+import BVM.Model.Api
+import BVM.Model.Tsdl
 open Lean BVM
 
 namespace Drv
@@ -212,6 +214,77 @@ def runHist (c : Cfg) (j : Json) : String :=
     let lines := if getBool j "hyps" then lines ++ ["hyp SizeStable=" ++ b01 (sizeStableRun c d ops s0)] else lines
     (Json.arr (lines.map Json.str).toArray).compress
 
+/-! ### layout / API ops -/
+
+def showLeaf : Leaf → String
+  | .num v => toString v
+  | .str b => "s" ++ toHex b
+
+def showFields (l : List (String × List Leaf)) : String :=
+  "{" ++ String.intercalate "," (l.map fun (n, ls) => n ++ "=" ++ String.intercalate " " (ls.map showLeaf)) ++ "}"
+
+def showTScalar : TScalar → String
+  | .int s sz al => "int(" ++ b01 s ++ "," ++ toString sz ++ "," ++ toString al ++ ")"
+  | .float m e al => "float(" ++ toString m ++ "," ++ toString e ++ "," ++ toString al ++ ")"
+  | .str => "str"
+
+def showTLen : TLen → String
+  | .lit n => "[" ++ toString n ++ "]"
+  | .ref n => "[" ++ n ++ "]"
+
+def showTStruct (s : TStruct) : String :=
+  "align=" ++ toString s.align ++ " eff=" ++ toString s.effAlign ++ " " ++
+    String.intercalate ";" (s.members.map fun m => m.name ++ ":" ++ showTScalar m.ty ++ String.join (m.lens.map showTLen))
+
+def showPacket (p : DecodedPacket) : String :=
+  "H" ++ showFields p.header ++ " C" ++ showFields p.context ++ " off=" ++ toString p.offContent ++
+    " content=" ++ toString p.content ++ String.join (p.events.map fun e =>
+      " | ev " ++ e.name ++ " " ++ toString e.id ++ " h" ++ showFields e.header ++ " c" ++ showFields e.streamCtx ++
+      " s" ++ showFields e.ctx ++ " p" ++ showFields e.fields ++ " " ++ toString e.start ++ " " ++ toString e.end_)
+
+def optsOf (j : Json) : GenOpts :=
+  let p := (getObj? j "prefix").getD .null
+  let h := (getObj? j "hdropts").getD .null
+  { identPrefix := getStr p "ident", filePrefix := getStr p "file",
+    defaultDst := (j.getObjValAs? String "default").toOption,
+    defPrefixMacro := getBool h "prefix", defDstMacro := getBool h "dst" }
+
+def handleLayout (cfg : Cfg) (o : GenOpts) (j : Json) : Option String :=
+  let dst := findDst cfg (getStr j "dst")
+  let ertOf := fun (d : DST) => d.erts.find? (fun (e : ERT) => e.name == getStr j "ert")
+  match getStr j "op" with
+  | "tsdl" =>
+    dst.map fun d =>
+      let st : Option Struct := match getStr j "root" with
+        | "ph" => some cfg.phStruct
+        | "pc" => some d.pcStruct
+        | "h" => some d.erhStruct
+        | "cc" => d.ercc
+        | "sc" => (ertOf d).bind (·.sc)
+        | "p" => (ertOf d).bind (·.p)
+        | _ => none
+      match st with | some s => showTStruct (tsdlStruct s) | none => "none"
+  | "decode" =>
+    dst.map fun d =>
+      match decodePacket cfg d (ofHex (getStr j "hex")) with
+      | some p => showPacket p
+      | none => "undecodable"
+  | "ctype" =>
+    some (if getStr j "k" == "real" then scalarCName (.real (getNat j "sz") (getNat j "al"))
+          else cIntName (getBool j "s") (getNat j "sz"))
+  | "proto" =>
+    dst.map fun d =>
+      let ps := match getStr j "fn" with
+        | "open" => openParams false cfg d
+        | _ => match ertOf d with | some e => traceParams false false d e | none => []
+      String.intercalate ", " (ps.map renderParam)
+  | "syms" => some (String.intercalate " " ((symbolsOf o cfg).mergeSort (fun a b => decide (a ≤ b))))
+  | "files" => some (String.intercalate " " (fileNamesOf o))
+  | "macros" => some (String.intercalate " " ((shorthandMacros o cfg).map fun (a, b) => a ++ "=" ++ b))
+  | "ids" => some (String.intercalate " " (sortedNames ((getArr j "names").map fun v => (v.getStr?).toOption.getD "")))
+  | "cliprefix" => some (let r := cliPrefixes (getStr j "p"); r.1 ++ " " ++ r.2)
+  | _ => none
+
 def handle (cfg : Cfg) (j : Json) : Cfg × String :=
   match getStr j "op" with
   | "bf" =>
@@ -249,19 +322,29 @@ def handle (cfg : Cfg) (j : Json) : Cfg × String :=
   | "hist" => (cfg, runHist cfg j)
   | op => (cfg, "bad-op " ++ op)
 
-partial def loop (h : IO.FS.Stream) (out : IO.FS.Stream) (cfg : Cfg) : IO Unit := do
+structure DrvSt where
+  cfg : Cfg
+  opts : GenOpts
+
+def handle2 (st : DrvSt) (j : Json) : DrvSt × String :=
+  if getStr j "op" == "cfg" then ({ cfg := cfgOf j, opts := optsOf j }, "ok") else
+  match handleLayout st.cfg st.opts j with
+  | some r => (st, r)
+  | none => let (c, r) := handle st.cfg j; ({ st with cfg := c }, r)
+
+partial def loop (h : IO.FS.Stream) (out : IO.FS.Stream) (st : DrvSt) : IO Unit := do
   let line ← h.getLine
   if line.isEmpty then return ()
-  let (cfg, r) := match Json.parse line with
-    | .ok j => handle cfg j
-    | .error e => (cfg, "bad-json " ++ e)
+  let (st, r) := match Json.parse line with
+    | .ok j => handle2 st j
+    | .error e => (st, "bad-json " ++ e)
   out.putStrLn r
-  loop h out cfg
+  loop h out st
 
 end Drv
 
 def main : IO Unit := do
   let i ← IO.getStdin
   let o ← IO.getStdout
-  Drv.loop i o { bo := .le, fast := true, uuid := [], feat := ⟨none, false, none⟩, dsts := [] }
+  Drv.loop i o { cfg := { bo := .le, fast := true, uuid := [], feat := ⟨none, false, none⟩, dsts := [] }, opts := {} }
   o.flush
